@@ -47,7 +47,7 @@ CHECKS = {
          "For 4 objects every fault plan is executed on the real save path: open fails (3 errnos), device capacity C for every C in [0,size), k-th write call fails (2 errnos) for every k, close fails, all/k-th write short; oracle: returned normally => the device holds exactly the fault-free bytes, otherwise std::ios_base::failure must propagate; short writes alone must not fail.",
          "faults injected at fopen/fopen64/write/writev/fclose by link-time interposition (verified to sit under libstdc++'s basic_filebuf)", "§3 C15", "fault"),
  "C16": ("fault_enumeration", "exhaustive damage enumeration (truncations, byte overwrites, structural-field sweeps, pairs) of small valid files loaded by the real code in forked children under cap + watchdog, plain and ASan builds",
-         "6 base files; children forked from a pristine process and ('primed' runs) from a process that has already loaded 12 valid files; every truncation length; every byte of header+parameters+first data block x 5 boundary values; every structural byte x 256 values; pairs of structural bytes x boundary values; child must end through 'object returned' or 'std::exception': no signal, no sanitizer report, no timeout (re-run alone with 10x limit), no memory growth stopped only by the cap (re-checked under 8 GiB).",
+         "7 base files; children forked from a pristine process and ('primed' runs) from a process that has already loaded 12 valid files; every truncation length; every byte of header+parameters+first data block x 5 boundary values; every structural byte x 256 values; pairs of structural bytes x boundary values; child must end through 'object returned' or 'std::exception': no signal, no sanitizer report, no timeout (re-run alone with 10x limit), no memory growth stopped only by the cap (re-checked under 8 GiB).",
          "signature = outcome / innermost ezc3d function / damaged field kind", "§3 C16", "damage"),
  "C17": ("exploration", "bounded-exhaustive enumeration of capacity limits at L-1, L, L+1, far beyond, alone and in pairs, built through the API, saved and reloaded on the real code",
          "16 capacity limits (one of them the parameter section's byte-exact length), each also at the signed boundary of its field (127|128, 32767|32768); at or below L the content must round-trip (C01 projection); above L saving must throw or the reload must equal the saved object (anything else is silent corruption).",
